@@ -67,6 +67,13 @@ var kernelList = []kernelSpec{
 	{"x/bet/types", "", "CalculateBetAmount"},
 	{"x/bet/types", "", "CalculateBetAmountInt"},
 	{"x/mint/types", "Minter", "NextPhaseProvisions"},
+	{"x/market/types", "Market", "isActiveOrInactive"},
+	{"x/market/types", "Market", "IsResolved"},
+	{"x/market/types", "Market", "IsUpdateAllowed"},
+	{"x/market/types", "Market", "IsResolveAllowed"},
+	{"x/bet/types", "Bet", "CheckSettlementEligiblity"},
+	{"x/subaccount/types", "LockedBalance", "Validate"},
+	{"x/orderbook/types", "OrderBookParticipation", "ValidateWithdraw"},
 }
 
 // structs that only occur as parameters
